@@ -282,13 +282,21 @@ func vfC19(w *vfWorld) {
 		case 14:
 			return odd(func(c map[string]interface{}, so *vfSignOpt) { c["azp"] = 5; c["aud"] = []interface{}{1, 2} })
 		case 15:
-			return odd(func(c map[string]interface{}, so *vfSignOpt) { c["email"] = map[string]interface{}{"a": 1}; c["groups"] = 7; c["roles"] = map[string]interface{}{} })
+			return odd(func(c map[string]interface{}, so *vfSignOpt) {
+				c["email"] = map[string]interface{}{"a": 1}
+				c["groups"] = 7
+				c["roles"] = map[string]interface{}{}
+			})
 		case 16:
 			return odd(func(c map[string]interface{}, so *vfSignOpt) { c["email_verified"] = []int{1}; c["sub"] = nil })
 		case 17:
 			return odd(func(c map[string]interface{}, so *vfSignOpt) { delete(c, "email"); delete(c, "sub") })
 		case 18:
-			return odd(func(c map[string]interface{}, so *vfSignOpt) { c["azp"] = []interface{}{}; c["iat"] = "x"; c["nbf"] = -1 })
+			return odd(func(c map[string]interface{}, so *vfSignOpt) {
+				c["azp"] = []interface{}{}
+				c["iat"] = "x"
+				c["nbf"] = -1
+			})
 		case 19:
 			return "bearer " + bearer
 		case 20:
